@@ -116,10 +116,233 @@ def alias_source(inp, src, o):
     return {"id": inp["ids"], "pid": inp["pids"], "type": inp["types"], "r": inp["r"], "x": inp["key"]}[src][o]
 
 
+# ----------------------------------------------------------------------------------------------------------------------
+# family "extra per-node columns of every pandas kind, with MISSING values" (a measurement that exists for part of the neuron
+# only, a label given to some nodes): the property speaks of "any set of extra per-node columns"; a missing entry is the value
+# of that node and travels with it.  Values are stored in the case as JSON (null = missing) and built in run().
+XKINDS = ["float-nan", "object-none", "Int64-NA", "float32-nan", "string-NA", "datetime-NaT", "boolean-NA", "category-nan"]
+XWHERE = ["some", "root", "all", "all-but-one", "leaves", "inner", "none"]
+TREE_XKINDS = ("float-nan", "float32-nan", "object-none")  # what a Tree holds as a numpy column
+
+
+def missing_column(rng, kind, where, ids, pids_in_rows, name):
+    n = len(pids_in_rows)
+    if kind in ("float-nan", "float32-nan"):
+        vals = [rng.randint(-80, 80) / 4 for _ in range(n)]
+    elif kind in ("object-none", "string-NA"):
+        vals = ["".join(rng.choice("abcdxyz") for _ in range(rng.randint(1, 4))) for _ in range(n)]
+    elif kind == "Int64-NA":
+        vals = [rng.randint(-1000, 1000) for _ in range(n)]
+    elif kind == "datetime-NaT":
+        vals = [rng.randint(0, 9000) for _ in range(n)]  # days after 2000-01-01
+    elif kind == "boolean-NA":
+        vals = [rng.random() < 0.5 for _ in range(n)]
+    else:
+        vals = [rng.choice(["axon", "dend", "apic"]) for _ in range(n)]
+    parents = set(pids_in_rows)
+    rows = list(range(n))
+    if where == "some":
+        miss = [k for k in rows if rng.random() < 0.35] or [rng.randrange(n)]
+    elif where == "root":
+        miss = [k for k in rows if pids_in_rows[k] == -1]
+    elif where == "all":
+        miss = rows
+    elif where == "all-but-one":
+        keep = rng.randrange(n)
+        miss = [k for k in rows if k != keep]
+    elif where == "leaves":
+        miss = [k for k in rows if ids[k] not in parents]
+    elif where == "inner":
+        miss = [k for k in rows if ids[k] in parents]
+    else:
+        miss = []  # the control: the same kinds of column, complete
+    for k in miss:
+        vals[k] = None
+    return {"name": name, "kind": kind, "where": where, "values": vals}
+
+
+def add_missing_columns(rng, case, kinds, where):
+    cols = [missing_column(rng, kind, where if j == 0 else rng.choice(XWHERE[:-1]), case["ids"], case["pids"], f"m{j}_{kind.split('-')[0]}")
+            for j, kind in enumerate(kinds)]
+    case["xcols"] = cols
+    case["class"] = f"missing/{cols[0]['kind']}/{'table' if case['form'] == 'table' else 'tree+table'}"
+    return case
+
+
+def build_xcol(kind, values):
+    import pandas as pd
+    if kind == "float-nan":
+        return np.array([np.nan if v is None else v for v in values], dtype=np.float64)
+    if kind == "float32-nan":
+        return np.array([np.nan if v is None else v for v in values], dtype=np.float32)
+    if kind == "object-none":
+        a = np.empty(len(values), dtype=object)
+        a[:] = values
+        return a
+    if kind == "Int64-NA":
+        return pd.array(values, dtype="Int64")
+    if kind == "string-NA":
+        return pd.array(values, dtype="string")
+    if kind == "boolean-NA":
+        return pd.array(values, dtype="boolean")
+    if kind == "datetime-NaT":
+        return pd.to_datetime([None if v is None else pd.Timestamp("2000-01-01") + pd.Timedelta(days=v) for v in values])
+    return pd.Categorical(values)
+
+
+def norm_x(kind, v):
+    """what the column holds for one node, as JSON: None = missing"""
+    import pandas as pd
+    try:
+        if v is None or v is pd.NaT or v is pd.NA or (isinstance(v, (float, np.floating)) and v != v):
+            return None
+        if kind == "datetime-NaT":
+            return int((pd.Timestamp(v) - pd.Timestamp("2000-01-01")).days)
+        if kind in ("float-nan", "float32-nan"):
+            return float(v)
+        if kind == "Int64-NA":
+            return int(v) if float(v) == int(v) else float(v)
+        if kind == "boolean-NA":
+            return bool(v)
+        return str(v)
+    except Exception as e:  # noqa: BLE001 - an entry of another nature than the column had: reported as a changed value
+        return f"<{type(v).__name__}: {e}>"
+
+
+# ----------------------------------------------------------------------------------------------------------------------
+# family "the table has a HISTORY": it descends from a table the library returned earlier (sort_nodes, sort_nodes_,
+# read_swc(sort_nodes=True)) through ordinary pandas steps — a new numbering (Series.map / column assignment / assign()),
+# rows in another order (sample / iloc / sort_values), another root, copies of every kind, columns added or dropped — some on
+# the same object, some on derived ones.  The derived table is again a single-rooted tree under some numbering, so sorting
+# it must again be a relabelling of IT.  The steps are stored in the case; the objects are built in run().
+H_SOURCES = ["sort_nodes", "sort_nodes_", "read_swc", "sort_nodes-twice"]
+H_RENUMBER = ["renumber-map", "renumber-setitem", "renumber-assign"]
+H_SHUFFLE = ["shuffle-sample", "shuffle-iloc", "shuffle-sort_values"]
+H_COPY = ["copy", "deepcopy", "pickle", "constructor", "columns", "astype"]
+
+
+def history_steps(rng, n, k):
+    """a recipe that leaves the table under a numbering other than the sorted one"""
+    core = [[H_RENUMBER[k % 3]], [H_SHUFFLE[k % 3]], [H_RENUMBER[(k // 3) % 3], H_SHUFFLE[k % 3]], ["reroot", H_RENUMBER[k % 3]],
+            ["reroot"], [H_SHUFFLE[k % 3], "reroot"]][k % 6]
+    ops = list(core)
+    if rng.random() < 0.6:
+        ops.insert(rng.randint(0, len(ops)), rng.choice(H_COPY))
+    if rng.random() < 0.3:
+        ops.insert(rng.randint(0, len(ops)), rng.choice(["addcol", "dropcol"]))
+    steps = []
+    for op in ops:
+        st = {"op": op}
+        if op in H_RENUMBER:  # new id of the node with the r-th smallest current id
+            hi = rng.choice([n, 3 * n + 3, 40 * n + 50, 10**6])
+            lo = rng.choice([0, 1, 7])
+            st["ids"] = rng.sample(range(lo, lo + hi), n)
+        elif op == "shuffle-sample":
+            st["rs"] = rng.randint(0, 2**30)
+        elif op == "shuffle-iloc":
+            st["perm"] = rng.sample(range(n), n)
+        elif op == "shuffle-sort_values":
+            st["by"], st["ascending"] = rng.choice(["x", "r", "type"]), rng.random() < 0.5
+        elif op == "reroot":
+            st["key"] = 100 + rng.randrange(n)
+        elif op == "addcol":
+            st["values"] = [rng.randint(0, 99) for _ in range(n)]
+        steps.append(st)
+    return steps
+
+
+def apply_step(d, st):
+    """one ordinary pandas step on the table d; returns the table to go on with (the same object where the step is in place)"""
+    import copy
+    import pickle
+
+    import pandas as pd
+    op = st["op"]
+    if op in H_RENUMBER:
+        cur = sorted(int(v) for v in d["id"])
+        m = dict(zip(cur, st["ids"]))
+        m[-1] = -1
+        if op == "renumber-map":
+            d["id"], d["pid"] = d["id"].map(m), d["pid"].map(m)
+        elif op == "renumber-setitem":
+            new_id, new_pid = np.array([m[int(v)] for v in d["id"]]), np.array([m[int(v)] for v in d["pid"]])
+            d["id"], d["pid"] = new_id, new_pid
+        else:
+            d = d.assign(id=[m[int(v)] for v in d["id"]], pid=[m[int(v)] for v in d["pid"]])
+        return d
+    if op == "shuffle-sample":
+        return d.sample(frac=1, random_state=st["rs"]).reset_index(drop=True)
+    if op == "shuffle-iloc":
+        return d.iloc[st["perm"]].reset_index(drop=True)
+    if op == "shuffle-sort_values":
+        return d.sort_values(st["by"], ascending=st["ascending"], kind="stable").reset_index(drop=True)
+    if op == "reroot":  # turn the edges on the way from the chosen node up to the root around
+        par = {int(i): int(p) for i, p in zip(d["id"], d["pid"])}
+        hit = d.loc[d["x"] == st["key"], "id"]
+        a = int(hit.iloc[0])
+        path = [a]
+        while par[path[-1]] != -1 and len(path) <= len(par):
+            path.append(par[path[-1]])
+        for child, parent in zip(path[:-1], path[1:]):
+            d.loc[d["id"] == parent, "pid"] = child
+        d.loc[d["id"] == a, "pid"] = -1
+        return d
+    if op == "addcol":
+        d["note"] = st["values"]
+        return d
+    if op == "dropcol":
+        return d.drop(columns=["z"])
+    if op == "copy":
+        return d.copy()
+    if op == "deepcopy":
+        return copy.deepcopy(d)
+    if op == "pickle":
+        return pickle.loads(pickle.dumps(d))
+    if op == "constructor":
+        return pd.DataFrame(d)
+    if op == "columns":
+        return d[list(d.columns)]
+    if op == "astype":
+        return d.astype({"x": np.float64, "r": np.float64})
+    raise ValueError(f"unknown step {op}")
+
+
+def tree_table_defect(ids, pids):
+    """None when (ids, pids) is a single-rooted tree under some numbering (what the property quantifies over)"""
+    n = len(ids)
+    if n == 0 or len(pids) != n or len(set(ids)) != n or any(i < 0 for i in ids):
+        return "ids empty / not distinct / negative"
+    if sum(1 for p in pids if p == -1) != 1:
+        return "not exactly one root"
+    par = dict(zip(ids, pids))
+    if any(p != -1 and p not in par for p in pids):
+        return "a parent is missing"
+    for i in ids:
+        j, steps = i, 0
+        while par[j] != -1:
+            j, steps = par[j], steps + 1
+            if steps > n:
+                return "a cycle"
+    return None
+
+
+def as_input(packed, case):
+    """a packed table (an earlier output, a derived table) read as the INPUT of the next call"""
+    return {"ids": packed["id"], "pids": packed["pid"], "key": packed["key"], "types": packed["types"], "r": packed["r"],
+            "extra": [packed[f"extra{j}"] for j in range(len(case["extra"])) if f"extra{j}" in packed],
+            "xcols": [{"name": c["name"], "kind": c["kind"], "values": packed["xcols"][c["name"]]}
+                      for c in case.get("xcols") or [] if c["name"] in packed.get("xcols", {})]}
+
+
 def check_relabelling(inp, out, what):
     """out = dict(id, pid, key, type, r, extra...) lists; the property read literally"""
     n = len(inp["ids"])
     res = []
+    if not isinstance(out, dict) or any(not isinstance(out.get(c), list) for c in ("id", "pid", "key", "types", "r")):
+        return [("sort-node-count", f"{what}: no table came back")]
+    if any(len(out[c]) != len(out["id"]) for c in ("pid", "key", "types", "r")) or \
+            any(len(out.get(f"extra{j}", [])) != len(out["id"]) for j in range(len(inp["extra"]))):
+        return [("sort-node-count", f"{what}: the columns of the result have different lengths")]
     if len(out["id"]) != n:
         return [("sort-node-count", f"{what}: {len(out['id'])} nodes out of {n}")]
     if list(out["id"]) != list(range(n)):
@@ -147,7 +370,21 @@ def check_relabelling(inp, out, what):
                 res.append(("sort-columns", f"{what}: extra column {name!r} (the same array as {src!r} in the input tree) of new node {k} is {b}, "
                                             f"the corresponding old node has {a}"))
                 return res
-        if "seg" in out and out["seg"][k] != 2**60 + 7 * (out["key"][k] - 100) + 1:
+        for xc in inp.get("xcols") or []:
+            if "xcols" not in out:
+                break  # this form does not carry such columns (a file)
+            if "xcols_given" in out and xc["name"] not in out["xcols_given"]:
+                continue  # a kind of column the tree object was not given
+            col = out["xcols"].get(xc["name"])
+            if col is None or len(col) != n:
+                res.append(("sort-columns", f"{what}: extra column {xc['name']!r} ({xc['kind']}) is gone / has {None if col is None else len(col)} entries"))
+                return res
+            a, b = xc["values"][o], col[k]
+            if a != b:
+                res.append(("sort-columns", f"{what}: extra column {xc['name']!r} ({xc['kind']}, missing entries: {sum(v is None for v in xc['values'])} of {n}) "
+                                            f"of new node {k} is {'missing' if b is None else repr(b)}, the corresponding old node has {'missing' if a is None else repr(a)}"))
+                return res
+        if "seg" in out and len(out["seg"]) == n and out["seg"][k] != 2**60 + 7 * (out["key"][k] - 100) + 1:
             res.append(("sort-columns", f"{what}: the 64-bit integer column of new node {k} is {out['seg'][k]}, its node had {2**60 + 7 * (out['key'][k] - 100) + 1}"))
             return res
         oldp = inp["pids"][o]
@@ -209,6 +446,32 @@ class SortSuite(Suite):
                 row = lambda col: [col[i] for i in order]
                 out.append({"class": f"all-n{n}/table", "ids": row(ids), "pids": row([-1 if p < 0 else ids[p] for p in pids]), "form": "table",
                             "key": row(base["key"]), "types": row(base["types"]), "r": row(base["r"]), "extra": [row(e) for e in base["extra"]]})
+        quick = tier == "quick" and not widen
+        # extra columns of every pandas kind with MISSING entries (NaN / None / NA / NaT), on tables of every numbering and on tree
+        # objects: every kind x every placement of the gaps, one or two such columns
+        j = 0
+        for rep in range(3 if quick else 10):
+            for kind in XKINDS:
+                n = rng.choice([4, 6, 9, 14, 22] if quick else [4, 6, 9, 14, 22, 40, 90])
+                form = ["table", "rootany", "table", "root0"][(j + rep) % 4] if kind in TREE_XKINDS else "table"
+                c = sort_case(rng, n, gen.pick_shape(rng, j), form, span=ID_SPANS[j % 3] if j % 2 else None,
+                              rows=["shuffled", "by-id", "by-id-desc"][j % 3])
+                kinds = [kind] + ([XKINDS[(j // 2) % len(XKINDS)]] if j % 3 == 0 else [])
+                out.append(add_missing_columns(rng, c, kinds, XWHERE[j % len(XWHERE)]))
+                j += 1
+        # tables with a history: an earlier result of sort_nodes / sort_nodes_ / read_swc(sort_nodes=True), renumbered / shuffled /
+        # re-rooted / copied with ordinary pandas steps, sorted again
+        for j in range(30 if quick else 120):
+            n = rng.choice([3, 5, 8, 13, 21] if quick else [3, 5, 8, 13, 21, 40, 80])
+            c = sort_case(rng, n, gen.pick_shape(rng, j), "table", span=ID_SPANS[j % 3] if j % 2 else None)
+            src = H_SOURCES[j % len(H_SOURCES)]
+            c["history"] = {"source": src, "steps": history_steps(rng, len(c["ids"]), j // len(H_SOURCES) + j)}
+            if j % 5 == 0 and src != "read_swc":
+                add_missing_columns(rng, c, [XKINDS[j % len(XKINDS)]], "some")
+            ops = [st["op"] for st in c["history"]["steps"]]
+            c["class"] = f"derived/{src}/" + "+".join(o.split("-")[0] for o in ops if o not in H_COPY + ["addcol", "dropcol"]) + \
+                ("+copy" if any(o in H_COPY for o in ops) else "")
+            out.append(c)
         return out
 
     def run(self, case):
@@ -230,6 +493,9 @@ class SortSuite(Suite):
         df = pd.DataFrame(cols)
         # a 64-bit integer column (segment / database ids): values that no float can hold
         df["seg"] = np.array([2**60 + 7 * (k - 100) + 1 for k in case["key"]], dtype=np.int64)
+        xcols = case.get("xcols") or []
+        for c in xcols:  # extra columns of other kinds, with missing entries
+            df[c["name"]] = build_xcol(c["kind"], c["values"])
         before = df.copy()
         d2 = sort_nodes(df)
         res["df_input_unchanged"] = bool(df.equals(before))
@@ -243,6 +509,14 @@ class SortSuite(Suite):
                 o["seg"] = [int(v) for v in get("seg")]
             except Exception:  # noqa: BLE001 - only the data-frame forms carry the column
                 pass
+            if xcols and ex:
+                o["xcols"] = {}
+                for c in xcols:
+                    try:
+                        col = get(c["name"])
+                    except (KeyError, ValueError):
+                        continue  # the column is not there (reported by the oracle where the form has to carry it)
+                    o["xcols"][c["name"]] = [norm_x(c["kind"], v) for v in col]
             return o
 
         res["df"] = pack(lambda c: d2[c].tolist())
@@ -264,6 +538,9 @@ class SortSuite(Suite):
                 it = [k for k, v in mine.items() if v.dtype == np.int32]
                 buf = np.concatenate([mine[k] for k in it])
                 mine.update({k: buf[j * n:(j + 1) * n] for j, k in enumerate(it)})
+            tree_x = [c for c in xcols if c["kind"] in TREE_XKINDS]
+            for c in tree_x:
+                mine[c["name"]] = build_xcol(c["kind"], c["values"])
             alias = case.get("alias") or []
             for name, src in alias:  # extra columns go through the constructor: Tree(n, ..., a=arr, b=arr)
                 if src.startswith("e"):
@@ -278,10 +555,15 @@ class SortSuite(Suite):
             expect_in = {k: np.array(t.get_ndata(k), copy=True) for k in t.ndata}
             st = sort_tree(t)
             res["tree"] = pack(lambda c: st.get_ndata(c).tolist())
+            if xcols:  # a Tree holds numpy columns: only those kinds were given to it
+                res["tree"]["xcols"] = {k: v for k, v in res["tree"]["xcols"].items() if k in {c["name"] for c in tree_x}}
+                res["tree"]["xcols_given"] = [c["name"] for c in tree_x]
             if alias:
                 res["tree"]["alias"] = {name: [float(v) for v in st.get_ndata(name)] for name, _ in alias}
-            res["tree_input_unchanged"] = bool(all(np.array_equal(t.get_ndata(k), cols[k]) for k in cols)
-                                               and all(np.array_equal(t.get_ndata(k), expect_in[k]) for k in expect_in))
+            same = lambda a, b: bool(np.array_equal(a, b) or (a.dtype.kind == "f" and np.array_equal(a, b, equal_nan=True))
+                                     or (a.dtype == object and a.tolist() == b.tolist()))
+            res["tree_input_unchanged"] = bool(all(same(t.get_ndata(k), cols[k]) for k in cols)
+                                               and all(same(t.get_ndata(k), expect_in[k]) for k in expect_in))
         # reading with sort_nodes=True
         lines = []
         for k in range(n):
@@ -291,6 +573,26 @@ class SortSuite(Suite):
             warnings.simplefilter("ignore")
             dfr, _ = read_swc(io.StringIO("".join(lines)), sort_nodes=True, extra_cols=[f"e{j}" for j in range(len(case["extra"]))] or None)
         res["read"] = pack(lambda c: dfr[c].tolist())
+        res["read"].pop("xcols", None)  # a file cannot hold these columns
+        # a table with a history: derived from an earlier result by ordinary pandas steps, then sorted
+        hist = case.get("history")
+        if hist:
+            src = hist["source"]
+            if src == "sort_nodes_":
+                d = before.copy()
+                sort_nodes_(d)
+            else:
+                d = {"sort_nodes": d2, "sort_nodes-twice": d3, "read_swc": dfr}[src]
+            for st in hist["steps"]:
+                d = apply_step(d, st)
+            h = {"in": pack(lambda c: d[c].tolist())}
+            d_before = d.copy(deep=True)
+            h["df"] = pack(lambda c, o=sort_nodes(d): o[c].tolist())
+            h["input_unchanged"] = bool(d.equals(d_before))
+            sort_nodes_(d)  # and in place, on the derived object itself
+            h["df_inplace"] = pack(lambda c: d[c].tolist())
+            h["is_sorted_out"] = bool(is_sorted((d["id"].to_numpy(), d["pid"].to_numpy())))
+            res["hist"] = h
         return res
 
     def lines(self, case, res):
@@ -306,6 +608,14 @@ class SortSuite(Suite):
                 (f"issorted ids={gen.ints(res['df']['id'])} pids={gen.ints(res['df']['pid'])}", str(res["is_sorted_out"]))]
 
     def oracle(self, case, res):
+        try:
+            return self._oracle(case, res)
+        except Exception as e:  # noqa: BLE001 - a result of a shape no clause expected: a finding, never a crash of the check
+            return [("sort-malformed-result", f"the result could not be judged ({type(e).__name__}: {e}): {str(res)[:300]}")]
+
+    def _oracle(self, case, res):
+        if not isinstance(res, dict):
+            return [("sort-malformed-result", f"no result: {res!r}")]
         if "exc" in res:
             return [("sort-raises", f"sorting a well-formed table raised {res['exc']}: {res.get('msg')}")]
         out = []
@@ -318,9 +628,7 @@ class SortSuite(Suite):
                 out += check_relabelling(case, res[what], {"df": "sort_nodes", "df_inplace": "sort_nodes_", "read": "read_swc(sort_nodes=True)",
                                                            "tree": "sort_tree"}[what])
         # sorting again: relabelling of the sorted result, still sorted
-        again_in = {"ids": res["df"]["id"], "pids": res["df"]["pid"], "key": res["df"]["key"], "types": res["df"]["types"], "r": res["df"]["r"],
-                    "extra": [res["df"][f"extra{j}"] for j in range(len(case["extra"]))]}
-        out += [(k + "/again", m) for k, m in check_relabelling(again_in, res["df2"], "sort_nodes∘sort_nodes")]
+        out += [(k + "/again", m) for k, m in check_relabelling(as_input(res["df"], case), res["df2"], "sort_nodes∘sort_nodes")]
         if not res["is_sorted_out"]:
             out.append(("is-sorted-out", "is_sorted is False on the sorted result"))
         truth = all(p < i_ for i_, p in zip(case["ids"], case["pids"]))
@@ -328,13 +636,38 @@ class SortSuite(Suite):
             out.append(("is-sorted", f"is_sorted says {res['is_sorted_in']} on ids={case['ids']} pids={case['pids']}"))
         if not res["df_input_unchanged"] or res.get("tree_input_unchanged") is False:
             out.append(("sort-mutates-input", "sort_nodes / sort_tree modified its argument"))
+        h = res.get("hist")
+        if h and not out and tree_table_defect(h["in"]["id"], h["in"]["pid"]) is None and sorted(h["in"]["key"]) == sorted(case["key"]):
+            # the derived table is a single-rooted tree under some numbering: the property holds for it like for any other
+            hin = as_input(h["in"], case)
+            hin["xcols"] = [c for c in hin["xcols"] if c["name"] in h["in"].get("xcols", {})]
+            desc = f"(a table derived from the result of {case['history']['source']} by {'+'.join(s_['op'] for s_ in case['history']['steps'])})"
+            for what, name in (("df", "sort_nodes"), ("df_inplace", "sort_nodes_")):
+                got = [(k + "/derived", m + f" [derived table: ids={h['in']['id'][:12]} pids={h['in']['pid'][:12]}]")
+                       for k, m in check_relabelling(hin, h[what], f"{name} {desc}")]
+                out += got
+                if got:
+                    break
+            if not out and not h["is_sorted_out"]:
+                out.append(("is-sorted-out/derived", f"is_sorted is False on the sorted result {desc}"))
+            if not h["input_unchanged"]:
+                out.append(("sort-mutates-input", f"sort_nodes modified its argument {desc}"))
         return out[:4]
 
     def nontrivial(self, case, res):
+        if case.get("history"):  # the derived table really is under another numbering than the sorted one
+            h = res.get("hist") if isinstance(res, dict) else None
+            return bool(h) and len(case["ids"]) >= 3 and (h["in"]["id"] != list(range(len(case["ids"])))
+                                                          or any(p >= i for i, p in zip(h["in"]["id"], h["in"]["pid"])))
+        if case.get("xcols"):  # some entry is missing on a node whose row moves
+            return len(case["ids"]) >= 3 and any(v is None for c in case["xcols"] for v in c["values"])
         return len(case["ids"]) >= 3
 
 
 SUITES = [SortSuite()]
+FAMILIES = ("input families of the oracle suite beyond shape x numbering x column storage: extra columns of every pandas kind with missing entries "
+            "(NaN / None / NA / NaT; tables and tree objects); tables with a history (an earlier result of sort_nodes / sort_nodes_ / "
+            "read_swc(sort_nodes=True) renumbered, shuffled, re-rooted, copied by ordinary pandas steps and sorted again)")
 TECHNIQUE = ("Lean 4 theorems: the stack loop of sort_nodes_impl equals a structural pre-order on Rose (induction, any shape/numbering/row order); "
              "the output is a bijective relabelling that transports the parent relation and permutes every column, with parents before children "
              "sort_nodes_impl itself is TRANSLATED from the current source on every run (harness/translate_algo.py → Gen/AlgoSort.lean: np.full_like fillers, list-as-stack, "
